@@ -680,3 +680,35 @@ Lemma mixed_layout_instance :
   outputs_valid [v; v] [ex_info 1; ex_info 2] = Valid /\
   outputs_valid [v; a; b] [ex_info 10; ex_info 20; ex_info 99] = Invalid.
 Proof. vm_compute. repeat split. Qed.
+
+(* ---------- output infos are compared in full, whatever the type of the output ---------- *)
+
+(* a non-mutated, non-virtual output matches only if device, inode, size, both time stamp fields and the checksum are
+   all equal to the stored ones: no field is skipped for directories (the mode, which carries the file type, does not
+   enter the comparison at all, so the check cannot depend on the type) *)
+Theorem output_matches_full o s : on_mutated o = false -> output_matches o s = true ->
+  fi_device s = fi_device (on_current o) /\ fi_inode s = fi_inode (on_current o) /\ fi_size s = fi_size (on_current o) /\
+  fi_sec s = fi_sec (on_current o) /\ fi_nsec s = fi_nsec (on_current o) /\ fi_checksum s = fi_checksum (on_current o) /\
+  is_missing s = is_missing (on_current o).
+Proof. unfold output_matches. intros Hm H. rewrite Hm in H. apply info_eqb_true. exact H. Qed.
+
+(* the verdict does not look at the mode (file type) of the stored or of the current info *)
+Theorem output_matches_type_agnostic v mu c s m1 m2 :
+  m1 <> 0 -> m2 <> 0 -> fi_mode c <> 0 -> fi_mode s <> 0 ->
+  output_matches (mkOnode v mu (mkFI (fi_device c) (fi_inode c) m1 (fi_size c) (fi_sec c) (fi_nsec c) (fi_checksum c)))
+                 (mkFI (fi_device s) (fi_inode s) m2 (fi_size s) (fi_sec s) (fi_nsec s) (fi_checksum s)) =
+  output_matches (mkOnode v mu (mkFI (fi_device c) (fi_inode c) (fi_mode c) (fi_size c) (fi_sec c) (fi_nsec c) (fi_checksum c)))
+                 (mkFI (fi_device s) (fi_inode s) (fi_mode s) (fi_size s) (fi_sec s) (fi_nsec s) (fi_checksum s)).
+Proof.
+  intros N1 N2 N3 N4.
+  unfold output_matches, info_eqb, is_missing. cbn [on_mutated on_current fi_device fi_inode fi_mode fi_size fi_sec fi_nsec fi_checksum].
+  apply N.eqb_neq in N1, N2, N3, N4. rewrite N1, N2, N3, N4. rewrite !andb_false_r. reflexivity.
+Qed.
+
+(* a directory output (mode 040755) whose time stamp moved, with unchanged device and inode, is Invalid *)
+Lemma directory_output_instance :
+  outputs_valid [mkOnode false false (ex_dirinfo 100 4096)] [ex_dirinfo 100 4096] = Valid /\
+  outputs_valid [mkOnode false false (ex_dirinfo 101 4096)] [ex_dirinfo 100 4096] = Invalid /\
+  outputs_valid [mkOnode false false (ex_dirinfo 100 4097)] [ex_dirinfo 100 4096] = Invalid /\
+  outputs_valid [mkOnode false false (ex_info 10)] [ex_dirinfo 100 4096] = Invalid.
+Proof. vm_compute. repeat split. Qed.
